@@ -4,9 +4,10 @@ pid="$1"; wt="${2:-/tmp/wt_$pid}"
 cd "$wt" || exit 2
 echo "== tests with change:"; /venv/bin/python -m pytest -q -p no:cacheprovider 2>&1 | tail -1
 echo "== demo with change:"; /venv/bin/python demo_$pid.py >/tmp/demo_with_$pid.txt 2>&1; echo "exit $?"; head -3 /tmp/demo_with_$pid.txt | cut -c1-200
-git stash push -q -- eqsig
+git apply -R patch_$pid.diff || echo "!! patch does not reverse-apply"
+git diff --quiet -- eqsig || echo "!! worktree differs from HEAD after reversing the patch"
 echo "== demo without change:"; /venv/bin/python demo_$pid.py >/tmp/demo_without_$pid.txt 2>&1; echo "exit $?"
-git stash pop -q
+git apply patch_$pid.diff
 cd /repo && git apply --check "$wt/patch_$pid.diff" 2>&1 | head -2
 git apply "$wt/patch_$pid.diff" && echo "== applied to /repo" 
 cd /verif && ./check "$pid" > /tmp/check_mut_$pid.txt 2>&1; echo "check exit $?"
